@@ -9,8 +9,8 @@ class C13(Prop):
     stages = ('S1', 'S25', 'S6')
     rule = 'all 22 catalogue drawings (rebuilt from the dumped table) x offsets x optional separated unrelated content; non-trivial always (each item contains a catalogue drawing); distinct by drawing, offset and context'
     level_text = ('Theorem C13_catalogue_at_origin: for each of the 22 catalogue drawings (regenerated from the implementation tables on every run) placed at the origin the model accepts exactly one unfilled circle and rejects nothing; radius (n-1)/2 or n/2 cells, extent equal to the drawing, every cell within 60 ticks of the circle; by vm_compute over the finite catalogue (bound stated). '
-                  'All offsets and contexts: C13_full stated, decided through C06/C10 and the correspondence on offsets 0..60 x 0..40.')
-    level_note = 'finite sweep at the origin is a proof with the bound in the statement; offsets and contexts rely on C06/C10 and on the correspondence (sampling)'
+                  'C13_catalogue_anywhere: at EVERY integer offset still exactly that circle, translated (by the translation theorem of C06); C13_next_to_unrelated_content: next to any content of which no cell is adjacent to a cell of the drawing, the fragments accepted from the cells of the drawing are exactly that one circle and no contact group comes from them (by the restriction theorem of C10).')
+    level_note = 'finite sweep at the origin is a proof with the bound in the statement, lifted to all offsets and all separated contexts by theorems; content touching the drawing is covered by the correspondence (sampling)'
     def make(self, idx, rows, k, n, ctx, ctxpos):
         allrows = gens.overlay([], rows, k, n)
         if ctx:
